@@ -533,7 +533,7 @@ Proof.
   intros st tr h lo lp rp sent rcvd info I Hwf.
   unfold peer_up, ignored_asn. rewrite Hign. cbn [existsb].
   unfold wf_msg, BMPMirrorSpec.wf_msg in Hwf. apply andb_true_iff in Hwf. destruct Hwf as (Hpph & Hwf).
-  unfold interp, BMPMirrorSpec.interp in *.
+  unfold interp, BMPMirrorSpec.interp in *. unfold ignored_asn in *. rewrite Hign in *. cbn [existsb] in *.
   destruct (open_decode sent) as [so|]; [|cbn [rev app]; split; [apply bump_inv; exact I|reflexivity]].
   destruct (open_decode rcvd) as [ro|]; [|cbn [rev app]; split; [apply bump_inv; exact I|reflexivity]].
   destruct (asn_of_open ro =? p_as h) eqn:Eas; cbn [negb];
@@ -965,3 +965,44 @@ Proof.
 Qed.
 
 End Mirror.
+
+(* ------------------------------------------------------------------ the statement, and why it needs its guard *)
+
+Definition mirror_holds (open_decode : bytes -> option open_info)
+    (upd_apply : bool -> bool -> bool -> bytes -> list uevent) (c : cfg) (acts : list action) : Prop :=
+  exists st, run open_decode upd_apply c init acts = Some st /\
+    (forall k s a4 a6 v6 y, sess (trace open_decode upd_apply c acts) k = Some (s, a4, a6) ->
+       cnt (tag s y) (table st (fst k) v6) = b2n (live (trace open_decode upd_apply c acts) k v6 y)) /\
+    (forall rd v6 e, In e (table st rd v6) ->
+       exists addr a4 a6,
+         sess (trace open_decode upd_apply c acts) (rd, addr) = Some (fst (fst e), a4, a6) /\
+         live (trace open_decode upd_apply c acts) (rd, addr) v6 (snd (fst e), snd e) = true).
+
+Theorem mirror_partial : forall open_decode upd_apply c, ignore_asns c = [] ->
+  forall acts, wf open_decode upd_apply c acts = true -> mirror_holds open_decode upd_apply c acts.
+Proof. intros od ua c H acts Hwf. exact (mirror od ua c H acts Hwf). Qed.
+
+(* Witness: IgnorePeerASNs = [65010]. Peer 10.0.0.2 of VRF 0 has AS 65010 and is ignored; the router
+   remembers ignored peers by address only, so the peer 10.0.0.2 (AS 65011) of VRF 1 is silenced as
+   well: its announcement of 1.0.0.0/24 is live but not in the table of VRF 1. *)
+Definition wit_open (b : bytes) : option open_info := Some (mk_open (be (firstn 2 (skipn 20 b))) 1 [] []).
+Definition wit_apply (_ _ _ : bool) (b : bytes) : list uevent :=
+  match b with [1; p; i] => [UAnn false (p, 24) i] | _ => [] end.
+Definition wit_cfg : cfg := mk_cfg [65010] false false.
+Definition wit_pph (rd aslo : N) : bytes :=
+  [0; 0] ++ repeat 0 7 ++ [rd] ++ repeat 0 12 ++ [10; 0; 0; 2] ++ [0; 0; 253; aslo] ++ repeat 0 12.
+Definition wit_openmsg (lo : N) : bytes := repeat 255 16 ++ [0; 29; 1; 4; 253; lo; 0; 180; 1; 1; 1; 1; 0].
+Definition wit_up (rd aslo : N) : bytes :=
+  [3; 0; 0; 0; 126; 3] ++ wit_pph rd aslo ++ repeat 0 16 ++ [0; 179; 156; 64] ++ wit_openmsg 233 ++ wit_openmsg aslo.
+Definition wit_rm (rd aslo : N) : bytes := [3; 0; 0; 0; 51; 0] ++ wit_pph rd aslo ++ [1; 1; 0].
+Definition wit_hist : list action := [AFrame (wit_up 0 242); AFrame (wit_up 1 243); AFrame (wit_rm 1 243)].
+
+Theorem mirror_refuted :
+  exists open_decode upd_apply c acts,
+    wf open_decode upd_apply c acts = true /\ ~ mirror_holds open_decode upd_apply c acts.
+Proof.
+  exists wit_open, wit_apply, wit_cfg, wit_hist. split; [vm_compute; reflexivity|].
+  intros (st & R & H1 & _). vm_compute in R. injection R as <-.
+  specialize (H1 (1, 167772162) (false, 167772162) false false false ((1, 24), 0)).
+  vm_compute in H1. specialize (H1 eq_refl). discriminate.
+Qed.
